@@ -34,6 +34,8 @@ def run(ctx):
         'C12.d Moment/AbstractCircuit key-protocol methods map every operation through the protocol function of the same name; '
         'ClassicallyControlledOperation covers its conditions and delegates to the sub-operation',
         'C12.e CircuitOperation parameter triple (shared with C10.a)',
+        'C12.f rescoping into the parent scope keeps the extern-key binding context',
+        'C12.g classical conditions rebuilt under key remapping keep every other field (index, bitmask, target)',
     ]
     ctx.not_decided += ['semantic equality with the unrolled circuit', 'key scoping rules', 'repeat_until evaluation']
     ci = repo.cls(CO)
@@ -229,6 +231,47 @@ def run(ctx):
         if mn != '_control_keys_':
             ok2 = '_sub_operation' in rd
             ctx.ob('C12.d', f'{cco.qual}.{mn}:sub', ok2, '' if ok2 else f'{mn} ignores the wrapped operation', cco.mod.rel, fn.lineno)
+
+    # ------------------------------------------------------------------ C12.g
+    cond = repo.cls('cirq.value.condition.Condition')
+    shared.rebuild_rule(ctx, 'C12.g', only_methods={'replace_key', '_with_key_path_', '_with_key_path_prefix_', '_with_rescoped_keys_',
+                                                     '_with_measurement_key_mapping_', '_resolve_parameters_'},
+                        floor=3, scope=lambda c: cond in repo.mro(c))
+
+    # ------------------------------------------------------------------ C12.f
+    ctx.rule('C12.f', 'binding context: every with_rescoped_keys call made by CircuitOperation passes bindable keys that include its '
+             'extern keys, and _with_rescoped_keys_ re-prefixes the extern keys it carries over with the new path', floor=3, style='COH')  # 2 call sites + 1
+    for mn, fn in sorted(ci.methods.items()):
+        for c in ast.walk(fn):
+            if isinstance(c, ast.Call) and call_name(c) == 'with_rescoped_keys':
+                if not (len(c.args) >= 2 and 'parent_path' in ast.unparse(c.args[1])):
+                    continue  # only the rescoping into the parent scope needs the binding context
+                bk = None
+                for k in c.keywords:
+                    if k.arg == 'bindable_keys':
+                        bk = k.value
+                if bk is None and len(c.args) >= 3:
+                    bk = c.args[2]
+                ok = bk is not None and any(is_self_attr(x, '_extern_keys') for x in ast.walk(bk))
+                ctx.ob('C12.f', f'{CO}.{mn}:with_rescoped_keys:bindable', ok,
+                       '' if ok else f'{mn} rescopes keys with bindable_keys=`{ast.unparse(bk) if bk is not None else None}`, leaving out the extern keys: '
+                       'conditions on keys measured in an enclosing scope bind to the wrong measurement', rel, c.lineno)
+    fn = repo.method(CO, '_with_rescoped_keys_')
+    uses = [n for n in ast.walk(fn) if is_self_attr(n, '_extern_keys')]
+    parents = ci.mod.parents()
+    okp = bool(uses)
+    for u in uses:
+        # must sit inside a comprehension/expression that applies with_key_path_prefix
+        cur = u
+        wrapped = False
+        while cur in parents and not isinstance(cur, ast.stmt):
+            cur = parents[cur]
+            if isinstance(cur, (ast.SetComp, ast.GeneratorExp, ast.ListComp)) and 'with_key_path_prefix' in ast.unparse(cur.elt):
+                wrapped = True
+        okp = okp and wrapped
+    ctx.ob('C12.f', f'{CO}._with_rescoped_keys_:extern-keys-reprefixed', okp,
+           '' if okp else '_with_rescoped_keys_ carries its extern keys over without prefixing them with the new path: after a second rescoping '
+           'they no longer name the enclosing iteration\'s measurement', rel, fn.lineno)
 
     # ------------------------------------------------------------------ C12.e
     ctx.rule('C12.e', 'CircuitOperation parameter triple: _is_parameterized_/_parameter_names_ read repetitions, repeat_until and '
